@@ -3,19 +3,25 @@
 //! unbounded mpsc channels (one inbox per task), `JoinHandle`s and `yield_now`.  Events are
 //! messages delivered at scripted times.
 //!
-//! script := B_local B_rt C R  nT task*  event*
+//! script := B_local B_rt C R G  nT task*  lp(start act*)  event*
 //! task   := kind len op*            kind odd = local (spawn_local), even = rt (tokio::spawn)
 //! op     := 0 (Log) | 1 (Recv own inbox) | 2 t (Send to inbox t) | 3 t (Join t) | 4 (Yield) | 5 (End)
-//! event  := delta len act*          time = previous time + delta;  act := 0 t (Spawn t) | 1 t (Send t)
-//! (the four budget numbers are read by the model only: here they are whatever the pinned tokio has)
+//! event  := delta kind lp(pre act*) lp(act*)     time = previous time + delta;  act := 0 t (Spawn t) | 1 t (Send t)
+//!           `pre` runs in the `incoming` hook of the module's processing element (outside the runtime: only
+//!           Send has an effect there); kind odd = the element CONSUMES the message (handle_message is not called,
+//!           `act` is ignored), even = it passes it on and handle_message performs `act`.
+//! `start` is performed by at_sim_start (stage 0, time 0).
+//! (the five tokio numbers are read by the model only: here they are whatever the pinned tokio has)
 //!
 //! Output, in execution order:
-//!   3 e now            handler of event e starts (now = SimTime::now())
+//!   6 0 now            at_sim_start runs
+//!   3 e now            the message of event e reaches the module (its processing element), now = SimTime::now()
 //!   2 task woken now   task polled; woken = SimTime::now() when it was spawned / its waker was last invoked
 //!   1 task now         task completed one op of its script (Recv/Join/Yield: when the await returned)
 //!   4 pl pr left       closes an event: polls of local tasks, polls of rt tasks during the event's
 //!                      block_on, left = 1 iff some task was woken/spawned and not yet polled when it returned
 //!   5 pl pr left       the same for the two block_on calls of the tear-down (at_sim_end)
+use des::net::processing::ProcessingStack;
 use des::prelude::*;
 use implrun::Cur;
 use std::future::Future;
@@ -149,23 +155,26 @@ async fn body(id: usize, ops: Vec<Op>, mut rx: UnboundedReceiver<()>, sh: Arc<Sh
     }
 }
 
-struct ScriptModule {
+struct Ev {
+    consume: bool,
+    pre: Vec<Act>,
+    acts: Vec<Act>,
+}
+
+struct Spawner {
     sh: Arc<Shared>,
     tasks: Vec<Vec<Op>>,
     rxs: Vec<Option<UnboundedReceiver<()>>>,
-    events: Vec<Vec<Act>>,
 }
 
-impl Module for ScriptModule {
-    fn handle_message(&mut self, msg: Message) {
-        let e = *msg.content::<u64>();
-        self.sh.close(4);
-        self.sh.open.store(true, SeqCst);
-        self.sh.rec(3, e, now());
-        let acts = self.events.get(e as usize).cloned().unwrap_or_default();
+impl Spawner {
+    fn perform(&mut self, acts: &[Act], may_spawn: bool) {
         for a in acts {
-            match a {
+            match *a {
                 Act::Spawn(t) => {
+                    if !may_spawn {
+                        continue;
+                    }
                     let t = t as usize;
                     // a task is spawned at most once
                     let Some(rx) = self.rxs.get_mut(t).and_then(|r| r.take()) else { continue };
@@ -181,6 +190,58 @@ impl Module for ScriptModule {
                 }
                 Act::Send(t) => self.sh.send(t),
             }
+        }
+    }
+}
+
+/// the module's only processing element: performs the event's `pre` actions in its `incoming`
+/// hook (outside the module's tokio runtime) and consumes the message if the event says so
+struct ScriptElem {
+    sh: Arc<Shared>,
+    sp: Arc<Mutex<Spawner>>,
+    events: Arc<Vec<Ev>>,
+}
+
+impl ProcessingElement for ScriptElem {
+    fn incoming(&mut self, msg: Message) -> Option<Message> {
+        let e = *msg.content::<u64>();
+        self.sh.close(4);
+        self.sh.open.store(true, SeqCst);
+        self.sh.rec(3, e, now());
+        let Some(ev) = self.events.get(e as usize) else { return Some(msg) };
+        self.sp.lock().unwrap().perform(&ev.pre, false);
+        if ev.consume {
+            None
+        } else {
+            Some(msg)
+        }
+    }
+}
+
+struct ScriptModule {
+    sh: Arc<Shared>,
+    sp: Arc<Mutex<Spawner>>,
+    events: Arc<Vec<Ev>>,
+    start: Vec<Act>,
+}
+
+impl Module for ScriptModule {
+    fn stack(&self, _default: ProcessingStack) -> ProcessingStack {
+        let mut s = ProcessingStack::default();
+        s.append(ScriptElem { sh: self.sh.clone(), sp: self.sp.clone(), events: self.events.clone() });
+        s
+    }
+
+    fn at_sim_start(&mut self, _stage: usize) {
+        self.sh.open.store(true, SeqCst);
+        self.sh.rec(6, 0, now());
+        self.sp.lock().unwrap().perform(&self.start, true);
+    }
+
+    fn handle_message(&mut self, msg: Message) {
+        let e = *msg.content::<u64>();
+        if let Some(ev) = self.events.get(e as usize) {
+            self.sp.lock().unwrap().perform(&ev.acts, true);
         }
     }
 
@@ -221,11 +282,11 @@ fn dec_acts(b: &[u64]) -> Vec<Act> {
 }
 
 fn run_line(nums: &[u64]) -> Vec<u64> {
-    if nums.len() < 5 {
+    if nums.len() < 6 {
         return vec![7];
     }
     let mut c = Cur::new(nums);
-    let (_bl, _br, _cc, _r) = (c.next(), c.next(), c.next(), c.next());
+    let (_bl, _br, _cc, _r, _g) = (c.next(), c.next(), c.next(), c.next(), c.next());
     let nt = c.next() as usize;
     let mut kinds = Vec::new();
     let mut tasks = Vec::new();
@@ -237,13 +298,17 @@ fn run_line(nums: &[u64]) -> Vec<u64> {
         tasks.push(dec_ops(&c.take_lp()));
     }
     let nt = tasks.len();
+    let start = dec_acts(&c.take_lp());
     let mut events = Vec::new();
     let mut times = Vec::new();
     let mut t = 0u64;
     while !c.done() {
         t += c.next();
         times.push(t);
-        events.push(dec_acts(&c.take_lp()));
+        let consume = c.next() % 2 == 1;
+        let pre = dec_acts(&c.take_lp());
+        let acts = dec_acts(&c.take_lp());
+        events.push(Ev { consume, pre, acts });
     }
 
     let mut txs = Vec::new();
@@ -266,7 +331,8 @@ fn run_line(nums: &[u64]) -> Vec<u64> {
     });
 
     let mut sim = Sim::new(());
-    sim.node("m", ScriptModule { sh: sh.clone(), tasks, rxs, events });
+    let sp = Arc::new(Mutex::new(Spawner { sh: sh.clone(), tasks, rxs }));
+    sim.node("m", ScriptModule { sh: sh.clone(), sp, events: Arc::new(events), start });
     let mref = sim.get(&ObjectPath::from("m")).expect("module m");
     let mut rt = Builder::seeded(1).quiet().build(sim.freeze());
     for (e, t) in times.iter().enumerate() {
